@@ -227,7 +227,8 @@ def run_driver(driver_file, requests, timeout=3000):
         ["lake", "env", "lean", "--run", driver_file],
         cwd=LEAN_DIR, input=payload, capture_output=True, text=True, timeout=timeout, env=_env(),
     )
-    lines = [l for l in r.stdout.splitlines() if l.strip()]
+    # split on "\n" only: str.splitlines() would also break at U+0085/U+2028/U+2029 inside JSON strings
+    lines = [l for l in r.stdout.split("\n") if l.strip()]
     if r.returncode != 0 or len(lines) != len(requests):
         raise LeanError(
             f"driver {driver_file} exit={r.returncode}, {len(lines)} replies for "
